@@ -156,6 +156,35 @@ def loop_via_late_nullable():
     return out
 
 
+def loop_shapes():
+    """Grammars around the defect `a nonterminal can derive itself': a recursive rule A : alpha A beta whose context
+    alpha/beta is empty, nullable directly, nullable late, or not nullable; the context symbol used alone elsewhere or
+    not; the recursion direct or through a second nonterminal; both rule orders.  TLC decides which of them have a loop."""
+    out = []
+    ctxs = {"none": [], "B": [B], "BB": [B, B], "t": [1]}
+    bdefs = {"eps": [R(B, [])], "eps_or_t": [R(B, []), R(B, [2])], "t": [R(B, [2])], "late": [R(B, [C]), R(B, [2]), R(C, [])]}
+    k = 0
+    for an, alpha in ctxs.items():
+        for bn, beta in ctxs.items():
+            for bd, brules in bdefs.items():
+                for via in ("direct", "indirect"):
+                    for alone in (0, 1):
+                        for order in (0, 1):
+                            if via == "direct":
+                                rec = [R(A, alpha + [A] + beta), R(A, [1])]
+                            else:
+                                rec = [R(A, alpha + [D] + beta), R(A, [1]), R(D, [A]), R(D, [3])]
+                            start = [R(S, [A])] + ([R(S, [B])] if alone else [])
+                            body = rec + brules
+                            if order:
+                                body = body[::-1]
+                            k += 1
+                            if (k * 7919) % 3 != 0 and an != "none" and bn != "none":
+                                continue          # thin out the biggest block deterministically
+                            out.append(entry("loop-%s-%s-%s-%s-%d-%d" % (an, bn, bd, via, alone, order), start + body, maxlen=2, alphabet=[1, 2, 3]))
+    return out
+
+
 def random_grammars(seed, n, nnts=4, nterms=3, maxrules=7, maxrhs=3, err=False, trans=False, maxlen=3, empty_bias=0.0):
     rnd = random.Random(seed)
     out = []
